@@ -59,6 +59,7 @@ def run(ctx) -> None:
     r7_windash(ctx)
     from . import c12
     c12.r6_rebuild_sites(ctx, "C03.R8", scope=("sigma.modifiers",), floor=0)
+    r9_argument_not_mutated(ctx)
 
 
 def r1_registry(ctx, reg: dict[str, str]) -> None:
@@ -401,3 +402,41 @@ def r7_windash(ctx) -> None:
     else:
         r.violation("C03.R7", f.qual, short(ys[0].value, 80) if ys else "yield from", "dash variants must be exactly ('-', '/', en dash, em dash, horizontal bar)", f.loc)
     r.floor("C03.R7", 5)
+
+
+def r9_argument_not_mutated(ctx) -> None:
+    r, prog = ctx.r, ctx.prog
+    r.rule("C03.R9", "a modifier does not change the string it is given: the first modifier of a chain receives the very object the detection item keeps as original value (for conversion back to a plain data structure), so modify() may only call methods of SigmaString that build a new string")
+    mutating = set()
+    for cq in prog.subclasses("sigma.types.SigmaString"):
+        for name, f in prog.cls(cq).methods.items():
+            if name in ("__init__", "__post_init__"):
+                continue
+            if any(isinstance(n, (ast.Assign, ast.AugAssign)) and any(isinstance(t, (ast.Attribute, ast.Subscript)) and unparse(t).startswith("self.") for t in (n.targets if isinstance(n, ast.Assign) else [n.target])) for n in walk_no_nested(f.node)):
+                mutating.add(name)
+    n = 0
+    for cq in sorted(prog.subclasses(BASE, strict=True)):
+        f = prog.cls(cq).methods.get("modify")
+        if f is None:
+            continue
+        param = f.params()[1] if len(f.params()) > 1 else "val"
+        for c in walk_no_nested(f.node):
+            if isinstance(c, ast.Call) and isinstance(c.func, ast.Attribute) and isinstance(c.func.value, ast.Name) and c.func.value.id == param:
+                recv = ctx.types.class_names(f.module, c.func.value)
+                if not any(t.endswith((".SigmaString", ".SigmaCasedString")) for t in recv):
+                    continue
+                n += 1
+                loc = f"{f.module.relpath}:{c.lineno}"
+                if c.func.attr in mutating:
+                    r.violation("C03.R9", f.qual, short(c, 80), f"SigmaString.{c.func.attr}() changes the string in place; applied to the original value object it changes what to_plain()/to_dict() write (an escaped \\%PATH\\% is written back as %PATH% and expanded on load)", loc)
+                else:
+                    r.ok("C03.R9", f.qual, f"{short(c, 60)}: builds a new value", loc)
+        for st in walk_no_nested(f.node):
+            if isinstance(st, (ast.Assign, ast.AugAssign)):
+                for t in (st.targets if isinstance(st, ast.Assign) else [st.target]):
+                    if isinstance(t, (ast.Attribute, ast.Subscript)) and unparse(t).split(".")[0].split("[")[0] == param:
+                        recv = ctx.types.class_names(f.module, t.value) if isinstance(t, ast.Attribute) else []
+                        if any(x.endswith((".SigmaString", ".SigmaCasedString")) for x in recv):
+                            r.violation("C03.R9", f.qual, stmt_head(st), "the modifier assigns into the string it was given", f"{f.module.relpath}:{st.lineno}")
+    r.note(f"C03.R9: self-mutating SigmaString methods: {sorted(mutating)}")
+    r.floor("C03.R9", 5)
